@@ -241,6 +241,14 @@ func randAmount(r *rng, manyDec bool) string {
 		}
 	case 4:
 		s = fmt.Sprintf("%d", r.rangeInt(100000, 99999999))
+		if r.chance(15) {
+			// 18-21 digits: beyond int64 (seeded change C04e-short-decimal-fast-path read literals of up to 19
+			// characters into an int64 mantissa; 19 digits from 9223372036854775808 on wrapped around)
+			s = pick(r, []string{"9223372036854775807", "9223372036854775808", "9999999999999999999", "18446744073709551615",
+				"18446744073709551616", "1000000000000000000", "4611686018427387904",
+				fmt.Sprintf("%d%d", r.rangeInt(923, 999), r.rangeInt(1000000000000000, 9999999999999999)),
+				fmt.Sprintf("%d%d", r.rangeInt(90, 9999), r.rangeInt(1000000000000000, 9999999999999999))})
+		}
 	default:
 		s = fmt.Sprintf("%d.%02d", r.rangeInt(0, 3000), r.rangeInt(0, 99))
 	}
@@ -300,6 +308,20 @@ func genJournal(r *rng, o genOpts) Journal {
 			accounts = append(accounts[:i], accounts[i+1:]...)
 		} else {
 			break
+		}
+	}
+	if r.chance(8) {
+		// an account that differs from another one only in the case of a letter of an inner segment (two distinct
+		// accounts: names are case-sensitive; seeded change C05e-account-names-case-insensitive merged them under
+		// whichever spelling was mentioned first)
+		for _, a := range accounts {
+			segs := strings.Split(a, ":")
+			if len(segs) >= 3 {
+				segs[1] = strings.ToLower(segs[1][:1]) + segs[1][1:]
+				segs[len(segs)-1] = "Vault"
+				accounts = append(accounts, strings.Join(segs, ":"))
+				break
+			}
 		}
 	}
 	var j Journal
@@ -380,6 +402,11 @@ func genJournal(r *rng, o genOpts) Journal {
 		nb := 1
 		if r.chance(30) {
 			nb = 2 + r.intn(2)
+		}
+		if r.chance(5) {
+			// a payslip: one transaction that touches many positions (seeded change C01e-netting-array-of-eight
+			// netted a transaction's postings in a fixed array of 8 keys and lost the ninth)
+			nb = r.rangeInt(5, 12)
 		}
 		for k := 0; k < nb; k++ {
 			c := accounts[r.intn(len(accounts))]
